@@ -94,6 +94,16 @@ def sites(ctx, case):
     for ch in chans:
         dsT[ch] = dsT[ch].transpose("time", "x")
     yield ("arrays-stored-time-x", {}, dsT, kw0, True)
+    # ... and any non-empty subset of the channels stored (time, x) while the others are (x, time)
+    import itertools
+    subsets = [c for r in range(1, len(chans)) for c in itertools.combinations(chans, r)]
+    if ctx.quick:
+        subsets = [c for c in subsets if len(c) == 1] + subsets[-1:]
+    for sub in subsets:
+        dsP = ds0.copy(deep=True)
+        for ch in sub:
+            dsP[ch] = dsP[ch].transpose("time", "x")
+        yield ("some-arrays-stored-time-x", {"transposed": list(sub)}, dsP, kw0, True)
     fixes = [("free", {})]
     g = (f.gamma, 0.0)
     if f.double:
@@ -136,7 +146,7 @@ def run_case(ctx, p):
 def run(ctx):
     ctx.extra["rule"] = ("valid seeded inputs (1 single + 1 double ended in quick, 10 + 10 in thorough) x exactly one corruption at every site: each intensity channel x each reference "
                          "location x representative times x {0, negative, NaN, inf}; each bath series x {NaN, inf, -inf}; each variance argument as float and as one cell (inside and outside the sections, first/last time) of an array / DataArray / callable-returned DataArray x {NaN, inf, "
-                         "negative}; fix_alpha too short; arrays stored (time, x); unknown / mis-cased / None method and solver crossed with free and every fix_* combination; plus corruptions outside the sections and the unchanged input, for which "
+                         "negative}; fix_alpha too short; all or any subset of the intensity arrays stored (time, x); unknown / mis-cased / None method and solver crossed with free and every fix_* combination; plus corruptions outside the sections and the unchanged input, for which "
                          "all outputs must be finite wherever the intensities are finite and positive")
     ctx.trusted += ["translator vlib/translators/checks.py (reachability analysis of assert/raise/return)", "harness vlib/props/c19.py"]
     ctx.assumptions += ["any raised exception counts as a refusal", "method='wls'"]
